@@ -239,8 +239,11 @@ def rule_b(repo, chk):
 
     def is_allowed_type(n, k, m):
         e = n.ast
-        return n.kind == 'test' and isinstance(e, ast.Compare) and len(e.ops) == 1 and isinstance(e.ops[0], ast.NotIn) and \
-            norm(e.comparators[0]) == 'ALLOWED_DESCRIPTOR_ACCESS' and norm(e.left).startswith('type(') and k == 'F'
+        if not (n.kind == 'test' and isinstance(e, ast.Compare) and len(e.ops) == 1 and norm(e.comparators[0]) == 'ALLOWED_DESCRIPTOR_ACCESS'
+                and norm(e.left).startswith('type(')):
+            return False
+        # `type(x) not in ALLOWED` taken false, or its complement `type(x) in ALLOWED` taken true
+        return (isinstance(e.ops[0], ast.NotIn) and k == 'F') or (isinstance(e.ops[0], ast.In) and k == 'T')
     for r in rets:
         second = r.value.elts[1]
         if isinstance(second, ast.Constant) and second.value is False:
@@ -499,11 +502,26 @@ def rule_d(repo, chk):
         f = repo.find(STATIC, fn)
         chk.ob('C13.d', not f.decorator_list, f, '%s is not memoised/decorated (classes are mutable; answers must be recomputed)' % fn,
                'decorators: %s' % decorators(f))
+    def mro_walkers():
+        """functions of getattr_static.py that loop over _static_getmro(<their parameter>): name -> parameter index"""
+        out = {}
+        for q_, d_ in repo.module(STATIC).defs.items():
+            if isinstance(d_, FUNC_TYPES):
+                for n in ast.walk(d_):
+                    if isinstance(n, ast.For) and isinstance(n.iter, ast.Call) and call_name(n.iter) == '_static_getmro' and n.iter.args \
+                            and isinstance(n.iter.args[0], ast.Name) and n.iter.args[0].id in params(d_):
+                        out[d_.name] = params(d_).index(n.iter.args[0].id)
+        return out
+    walkers = mro_walkers()
     meta = [n for n in ast.walk(g) if isinstance(n, ast.For) and isinstance(n.iter, ast.Call) and call_name(n.iter) == '_static_getmro'
             and norm(n.iter.args[0]).startswith('type(')]
+    # ... or through a helper that walks the MRO of its argument, handed type(<class>)
+    meta += [c_ for c_ in calls_in(g) if call_name(c_) in walkers and len(c_.args) > walkers[call_name(c_)]
+             and norm(c_.args[walkers[call_name(c_)]]).startswith('type(')]
     chk.ob('C13.d', bool(meta), g, 'for a type, the metaclass MRO is searched too')
     cc = repo.find(STATIC, '_check_class')
-    ok = any(isinstance(n, ast.For) and isinstance(n.iter, ast.Call) and call_name(n.iter) == '_static_getmro' for n in ast.walk(cc))
+    ok = any(isinstance(n, ast.For) and isinstance(n.iter, ast.Call) and call_name(n.iter) == '_static_getmro' for n in ast.walk(cc)) or \
+        any(call_name(c_) in walkers and len(c_.args) > walkers[call_name(c_)] and norm(c_.args[walkers[call_name(c_)]]) == params(cc)[0] for c_ in calls_in(cc))
     chk.ob('C13.d', ok, cc, '_check_class walks the whole static MRO (bases included)')
     # getattr_static itself performs no dynamic lookup on the object
     for fn in ('getattr_static', '_check_instance', '_check_class', '_shadowed_dict', '_static_getmro', '_safe_hasattr', '_is_type'):
@@ -669,7 +687,18 @@ def rule_e(repo, chk):
                         'on that path, _get returns a non-empty list on every exit')
     v = repo.find(VALUE, 'CompiledValueFilter.values')
     loops = [n for n in own_nodes(v) if isinstance(n, ast.For) and isinstance(n.iter, ast.Name) and n.iter.id == 'dir_infos']
-    chk.ob('C13.e', bool(loops), v, 'values() loops over all keys of dir_infos')
+    # the comprehension form: [x for name in dir_infos for x in self._get(name, ...)] - no filter, the result returned
+    comps = [n for n in own_nodes(v) if isinstance(n, (ast.ListComp, ast.GeneratorExp)) and n.generators
+             and isinstance(n.generators[0].iter, ast.Name) and n.generators[0].iter.id == 'dir_infos']
+    chk.ob('C13.e', bool(loops) or bool(comps), v, 'values() loops over all keys of dir_infos')
+    for cp in comps:
+        chk.ob('C13.e', not any(g_.ifs for g_ in cp.generators), cp, 'no name of dir() is filtered out in the comprehension')
+        cs = [c for c in ast.walk(cp) if isinstance(c, ast.Call) and call_name(c) == '_get']
+        ok = bool(cs) and all(kwarg(c, 'check_has_attribute') is None and len(c.args) <= 3 for c in cs)
+        chk.ob('C13.e', ok, cp, 'values() calls _get without check_has_attribute (so missing static info never drops a name)')
+        inner = [g_ for g_ in cp.generators[1:] if any(x in cs for x in ast.walk(g_.iter))]
+        chk.ob('C13.e', bool(inner) and isinstance(cp.elt, ast.Name) and any(isinstance(g_.target, ast.Name) and g_.target.id == cp.elt.id for g_ in inner), cp,
+               'every _get result is accumulated into the returned list')
     for lp in loops:
         bad = [s for s in ast.walk(lp) if isinstance(s, (ast.Break, ast.Continue, ast.Return))]
         chk.ob('C13.e', not bad, lp, 'no break/continue/return inside the loop over dir() names')
